@@ -85,7 +85,7 @@ theorem step_own {s : St} (k : Option Nat) (op : Op) (h : Own s) : Own (step k o
 
 theorem run_own : ∀ (hist : List (Option Nat × Op)) (s : St), Own s → Own (run hist s)
   | [], _, h => h
-  | (k, op) :: hist, s, h => run_own hist _ (step_own k op h)
+  | (k, op) :: hist, _, h => run_own hist _ (step_own k op h)
 
 theorem Acct.empty : Acct {} [] [] :=
   { nobad := fun _ h => by simp at h, nodup := List.nodup_nil, lt := fun _ h => by simp at h,
